@@ -498,7 +498,7 @@ def run(ctx, report: Report) -> None:
     default_button_table(ctx, r3)
 
     # ---- R5 (the whole pipeline by interpretation, bounded) --------------------------------------------------------------
-    r5 = report.rule('C04-R5', 'a compiled selector answers the same after any sequence of other queries (bounded)', floor=29)
+    r5 = report.rule('C04-R5', 'a compiled selector answers the same after any sequence of other queries (bounded)', floor=56)
     from .e2ematch import history_table, one_call_table
     history_table(ctx, r5)
     one_call_table(ctx, r5, deep=(ctx.tier == 'thorough'))
